@@ -99,6 +99,7 @@ let image_words (file : string) : int list =
 let run_main () =
   let bin = Sys.argv.(2) in
   let max_steps = int_of_string Sys.argv.(3) in
+  let max_cycles = if Array.length Sys.argv > 4 then int_of_string Sys.argv.(4) else 0 in
   let words = image_words (read_file bin) in
   let cons = let b = Buffer.create 64 in (try while true do Buffer.add_channel b stdin 1 done with End_of_file -> ()); Buffer.contents b in
   let ncons = Stdlib.String.length cons in
@@ -112,6 +113,7 @@ let run_main () =
   let fin = ref "" and rc = ref 0 in
   let modeldiff = ref (-1) in
   while !fin = "" do
+    if max_cycles > 0 && not (SimModel.guard (zi max_cycles) !sm) then (fin := "limit"; rc := iz (!sm).SimModel.s_exit) else
     if !steps >= max_steps then fin := "cut" else
     match Isa.step !st !inp with
     | Isa.Undefined (Isa.BadAddress _) -> fin := "badaddr"
